@@ -2351,6 +2351,35 @@ func loadsFollowTheScopeWalk(c *core.Ctx) {
 					return false
 				}
 				ok2 := fromTable(operand) || core.DependsOn(operand, fromTable)
+				if !ok2 {
+					// the slot comes from a resolution that the function is handed (the
+					// scope switch in a function of its own): every caller hands it one
+					// that the symbol table gave it
+					for pi, prm := range fn.Params {
+						if !core.DependsOn(operand, func(w ssa.Value) bool { return w == ssa.Value(prm) }) {
+							continue
+						}
+						sites, good := 0, 0
+						for _, g := range repoFns(p, "compiler") {
+							for _, gb := range g.Blocks {
+								for _, gin := range gb.Instrs {
+									gc, isCall := gin.(*ssa.Call)
+									if !isCall || gc.Call.StaticCallee() != fn || pi >= len(gc.Call.Args) {
+										continue
+									}
+									sites++
+									arg := gc.Call.Args[pi]
+									if fromTable(arg) || core.DependsOn(arg, fromTable) {
+										good++
+									}
+								}
+							}
+						}
+						if sites > 0 && sites == good {
+							ok2 = true
+						}
+					}
+				}
 				// ... and not through a map kept by the Compiler itself
 				side := core.DependsOn(operand, func(w ssa.Value) bool {
 					lk, ok := w.(*ssa.Lookup)
